@@ -81,8 +81,9 @@ Theorem C14_site_rewire_order_irrelevant : forall old new l l' g,
 Proof. exact site_rewire_order_irrelevant. Qed.
 Print Assumptions C14_site_rewire_order_irrelevant.
 
-(* S8 (remove_redundant_transpose_pairs_ir :1550): rewire + shape refresh in set order.
-   The full-strength statement is FALSE of the faithful model ... *)
+(* S8, code up to /repo aca2665 (remove_redundant_transpose_pairs_ir :1550): rewire + shape refresh in set
+   order.  Kept as documentation of the defect fixed in 77c9ea7; the models of the fixed code follow (S8').
+   The full-strength statement is FALSE of the faithful model of the old code ... *)
 Theorem C14_site_refresh_order_irrelevant_refuted :
   exists F l l' sh dom, Permutation l l' /\
     map (fold_left (fun s m => refresh_act F m s) l sh) dom <>
@@ -101,7 +102,24 @@ Theorem C14_site_refresh_order_irrelevant_partial : forall F (l l' : list (name 
 Proof. exact site_refresh_partial. Qed.
 Print Assumptions C14_site_refresh_order_irrelevant_partial.
 
-(* S14 (plugins/plugin_system.py:952): names of a STRING set appended to the function-call inputs *)
+(* S8' (77c9ea7): the loop over the set only rewires each member's own inputs ... *)
+Theorem C14_site_rewire_map_order_irrelevant : forall d l l' g,
+  Permutation l l' ->
+  fold_left (fun s m => rewire_map_act d m s) l g = fold_left (fun s m => rewire_map_act d m s) l' g.
+Proof. exact site_rewire_map_order_irrelevant. Qed.
+Print Assumptions C14_site_rewire_map_order_irrelevant.
+
+(* ... and the refresh runs over the graph's node LIST, the set answering membership only: the resulting
+   annotation (as a function) is the same for every iteration order of the set *)
+Theorem C14_site_refresh_graph_order_set_irrelevant : forall F elems elems' nodes sh,
+  Permutation elems elems' ->
+  fold_left (fun s m => refresh_act F m s) (filter (fun m => mem (fst m) elems) nodes) sh =
+  fold_left (fun s m => refresh_act F m s) (filter (fun m => mem (fst m) elems') nodes) sh.
+Proof. exact site_refresh_graph_order_set_irrelevant. Qed.
+Print Assumptions C14_site_refresh_graph_order_set_irrelevant.
+
+(* S14, code up to /repo aca2665 (plugins/plugin_system.py:952): names of a STRING set appended to the
+   function-call inputs in set order; kept as documentation of the defect fixed in 77c9ea7 *)
 Theorem C14_site_append_order_irrelevant_refuted :
   exists (keep : nat -> bool) l l' acc, Permutation l l' /\
     fold_left (fun s a => append_act keep a s) l acc <> fold_left (fun s a => append_act keep a s) l' acc.
@@ -113,6 +131,24 @@ Theorem C14_site_append_order_irrelevant_partial : forall (A : Type) (keep : A -
   fold_left (fun s a => append_act keep a s) l acc = fold_left (fun s a => append_act keep a s) l' acc.
 Proof. exact @site_append_partial. Qed.
 Print Assumptions C14_site_append_order_irrelevant_partial.
+
+(* S14' (77c9ea7): `for pname in sorted(call_param_names)`: sorting is canonical for any decidable total order *)
+Theorem C14_sorted_canonical : forall (A : Type) (leb : A -> A -> bool),
+  (forall a b, leb a b = true \/ leb b a = true) ->
+  (forall a b, leb a b = true -> leb b a = true -> a = b) ->
+  (forall a b c, leb a b = true -> leb b c = true -> leb a c = true) ->
+  forall l l', Permutation l l' -> sort_list A leb l = sort_list A leb l'.
+Proof. exact sorted_canonical. Qed.
+Print Assumptions C14_sorted_canonical.
+
+(* strings = lists of code points under Python's lexicographic str order: the appended sequence is the
+   same whatever the iteration order of the set *)
+Theorem C14_site_append_sorted_strings_order_irrelevant : forall (keep : list nat -> bool) l l' acc,
+  Permutation l l' ->
+  fold_left (fun s a => append_act keep a s) (sort_list _ lex_leb l) acc =
+  fold_left (fun s a => append_act keep a s) (sort_list _ lex_leb l') acc.
+Proof. exact site_append_sorted_strings_order_irrelevant. Qed.
+Print Assumptions C14_site_append_sorted_strings_order_irrelevant.
 
 (* ---- (b) names are a function of the request: equivalence with "every counter is per conversion" *)
 Theorem C14_names_history_independent_iff : forall c,
